@@ -86,6 +86,7 @@ type runRec struct {
 	hookOcc     [hpCount]atomic.Int64
 	trigFired   atomic.Bool
 	refreshDead atomic.Bool
+	dead        atomic.Bool
 	trigMatch   atomic.Int64
 	perturbN    atomic.Int64
 	delaysN     atomic.Int64
@@ -216,6 +217,9 @@ func (rr *runRec) hook(pi int, bar *mpb.Bar, a, b int) {
 		}
 	}
 	occ := rr.hookOcc[pi].Add(1)
+	if pi == hpServeDone || pi == hpRenderEnd && b != 0 {
+		rr.dead.Store(true) // no further render cycle will come
+	}
 	if rr.pty != nil {
 		switch pi {
 		case hpRenderBegin:
@@ -312,6 +316,14 @@ func (l *listenerDec) OnShutdown() {
 	atomic.AddInt32(&l.rr.listenerCalls[l.bar][l.ord], 1)
 }
 
+// listenerEwmaDec: a shutdown listener that is also a moving-average decorator.
+type listenerEwmaDec struct {
+	listenerDec
+	n atomic.Int64
+}
+
+func (l *listenerEwmaDec) EwmaUpdate(n int64, d time.Duration) { l.n.Add(n) }
+
 type ewmaDec struct {
 	decor.WC
 	n atomic.Int64
@@ -360,6 +372,9 @@ func (rr *runRec) buildDec(bi int, side string, ord int, d DecSpec) decor.Decora
 		rr.listenerN[bi]++
 		rr.listenerCalls[bi] = append(rr.listenerCalls[bi], 0)
 		x = l
+		if d.Vary&1 == 1 {
+			x = &listenerEwmaDec{listenerDec: *l}
+		}
 	case "ewma":
 		e := &ewmaDec{WC: wc}
 		e.WC.Init()
@@ -534,7 +549,7 @@ func (rr *runRec) refresh() bool {
 			return true
 		default:
 		}
-		if rr.cancelled.Load() || rr.tWaitRet.Load() != 0 || rr.finished.Load() {
+		if rr.cancelled.Load() || rr.tWaitRet.Load() != 0 || rr.finished.Load() || rr.dead.Load() {
 			return false
 		}
 		if time.Since(start) > limit {
@@ -643,7 +658,9 @@ func (rr *runRec) doOp(client, idx int, op Op) {
 			break
 		}
 		n0 := hk.counts[hpRenderEnd].Load()
-		waitCount(hpRenderEnd, n0+op.N, 200*time.Millisecond)
+		for t0 := time.Now(); hk.counts[hpRenderEnd].Load() < n0+op.N && !rr.dead.Load() && time.Since(t0) < 200*time.Millisecond; {
+			time.Sleep(20 * time.Microsecond)
+		}
 	case "prio":
 		rr.p.UpdateBarPriority(b, int(op.N), op.F)
 	case "setprio":
@@ -652,6 +669,10 @@ func (rr *runRec) doOp(client, idx int, op Op) {
 		res = fmt.Sprintf("%d,%v,%v,%v,%d", b.Current(), b.Completed(), b.Aborted(), b.IsRunning(), b.ID())
 	case "barwait":
 		b.Wait()
+	case "barwaitget":
+		b.Wait()
+		c, ab, run := b.Completed(), b.Aborted(), b.IsRunning()
+		res = fmt.Sprintf("%v,%v,%v", c, ab, run)
 	case "barwaitdone":
 		if !b.IsRunning() {
 			b.Wait()
@@ -812,6 +833,17 @@ func (rr *runRec) execute() {
 			}
 		}(ci, ops)
 	}
+	var wwg sync.WaitGroup
+	for wi, ops := range sc.Waiters {
+		wwg.Add(1)
+		go func(wi int, ops []Op) {
+			defer wwg.Done()
+			for i, op := range ops {
+				rr.doOp(100+wi, i, op)
+			}
+		}(wi, ops)
+	}
+	defer wwg.Wait()
 	joinClients := func() { cwg.Wait() }
 	if !sc.WaitEarly {
 		joinClients()
